@@ -224,13 +224,31 @@ def gcc_expect(case, base, rendered, extra=()):
     return ok, per_tu, expected
 
 
-def cbi_configuration(case, base):
+def cbi_configuration(case, base, via_parser=True):
+    """Configuration for finder.find.  via_parser: the entries are produced by the real command-line front end
+    (config.ArgumentParser("gcc").parse_args on the argv a database would hold), so -I / -isystem ordering and
+    option handling are the code's own; otherwise the lists are passed in command-line order."""
     root, out = paths(base)
     conf = {}
     for tu in case["tus"]:
         path, defines, search, incs = tu_args(tu, root, out)
-        conf.setdefault(tu["platform"], []).append(
-            {"file": path, "defines": defines, "include_paths": [d for _, d in search], "include_files": incs})
+        entry = None
+        if via_parser:
+            from codebasin import config
+            argv = ["-D" + d for d in defines]
+            for k, d in search:
+                argv += ["-I" if k == "I" else "-isystem", d]
+            for f in incs:
+                argv += ["-include", f]
+            argv += ["-c", path]
+            cfgs = [c for c in config.ArgumentParser("gcc").parse_args(argv) if c.pass_name == "default"]
+            if len(cfgs) == 1:
+                c = cfgs[0]
+                entry = {"file": path, "defines": list(c.defines), "include_paths": list(c.include_paths),
+                         "include_files": list(c.include_files)}
+        if entry is None:
+            entry = {"file": path, "defines": defines, "include_paths": [d for _, d in search], "include_files": incs}
+        conf.setdefault(tu["platform"], []).append(entry)
     return conf
 
 
